@@ -19,11 +19,13 @@ namespace vw
         G_RASTER_QUEEN_NC,
         G_RASTER_ROOK_NC,
         G_TRIMESH,
+        G_PROFILE_NC,        // appended: numeric values of the older kinds (and the worlds their seeds generate) stay as they were
+        G_RASTER_BISHOP_NC,
         G_COUNT
     };
     inline const char* grid_kind_name(int k)
     {
-        static const char* n[] = { "profile", "raster_rook", "raster_queen", "raster_bishop", "raster_queen_nc", "raster_rook_nc", "trimesh" };
+        static const char* n[] = { "profile", "raster_rook", "raster_queen", "raster_bishop", "raster_queen_nc", "raster_rook_nc", "trimesh", "profile_nc", "raster_bishop_nc" };
         return (k >= 0 && k < G_COUNT) ? n[k] : "?";
     }
     inline int grid_kind_from(const std::string& s)
@@ -35,7 +37,11 @@ namespace vw
     }
     inline bool grid_is_raster(int k)
     {
-        return k >= G_RASTER_ROOK && k <= G_RASTER_ROOK_NC;
+        return (k >= G_RASTER_ROOK && k <= G_RASTER_ROOK_NC) || k == G_RASTER_BISHOP_NC;
+    }
+    inline bool grid_is_profile(int k)
+    {
+        return k == G_PROFILE || k == G_PROFILE_NC;
     }
     inline bool grid_has_cache(int k)
     {
@@ -62,7 +68,7 @@ namespace vw
         {
             if (kind == G_TRIMESH)
                 return mesh_nx * mesh_ny + static_cast<std::size_t>(mesh_extra);
-            if (kind == G_PROFILE)
+            if (kind == G_PROFILE || kind == G_PROFILE_NC)
                 return cols;
             return rows * cols;
         }
